@@ -62,6 +62,17 @@ def path_key(b, p, domains=None):
     return frozenset(keys), details
 
 
+def key_tag(key):
+    """obligation tag from the NORMALISED path condition (independent of how the branches are written)"""
+    def lab(k):
+        if k[0] == "num":
+            return "%s%s" % (k[1], k[2])
+        if k[0] == "str":
+            return k[2]
+        return "valid" if any(isinstance(x, tuple) and x and x[0] == "cmp" and x[1] in ("notin", "in") for x in walk(k[1])) or (k[1][0] == "cmp" and k[1][1] in ("notin", "in")) else "c"
+    return ",".join(sorted("%s:%s" % (lab(k), "T" if v else "F") for k, v in key)) or "-"
+
+
 def compare_paths(ctx, rule, qn, specname, syn=None, env_of=None, what=""):
     """every return path of qn agrees with every specification path whose condition set contains its own"""
     f = ctx.pkg.fn(qn)
@@ -76,7 +87,7 @@ def compare_paths(ctx, rule, qn, specname, syn=None, env_of=None, what=""):
         if p.exit != "return":
             continue
         key, details = path_key(bi, p, domains)
-        tag = ",".join("%s" % v for _c, v in p.conds) or "-"
+        tag = key_tag(key)
         matches = [sp_ for k, _d, sp_ in spaths if key <= k]
         clash = None
         for k, d, _sp in spaths:
@@ -118,11 +129,8 @@ def compare_paths(ctx, rule, qn, specname, syn=None, env_of=None, what=""):
     return n
 
 
-def r1_spacing_to_size(ctx):
+def exact_stop(ctx, rule):
     qn = "verde.coordinates.spacing_to_size"
-    n = compare_paths(ctx, "R1", qn, "coords.spacing_to_size")
-    if n < 4:
-        ctx.add("R1", qn + "|paths", "UNDECIDED", "only %d return paths compared (4 expected)" % n, fn=qn)
     # "with adjust='spacing' both bounds are hit exactly": the stop handed to linspace must be the caller's stop itself, not a
     # value recomputed through floating-point arithmetic (start + (n-1)*((stop-start)/(n-1)) equals stop only in exact arithmetic)
     domains = str_domains(spec.paths("coords.spacing_to_size"))
@@ -132,12 +140,20 @@ def r1_spacing_to_size(ctx):
         key, _d = path_key(Builder(Space()), p, domains)
         if not any(k[0] == "str" and k[2] == "region" and v is False for k, v in key):
             continue
-        tag = ",".join("%s" % v for _c, v in p.conds) or "-"
+        tag = key_tag(key)
         st = p.value[1][1]
         rounding = any(x[0] == "binop" and (x[1] in ("/", "//", "**") or (x[1] == "*" and not (is_const(x[2]) or is_const(x[3])))) for x in walk(st))
-        ctx.check("R1", "%s|stop-returned-exactly|%s" % (qn, tag), True if st == ("param", "stop") else (False if rounding else None),
+        ctx.check(rule, "%s|stop-returned-exactly|%s" % (qn, tag), True if st == ("param", "stop") else (False if rounding else None),
                   "adjust='spacing' returns the caller's stop unchanged (bit-exact)",
                   bad="adjust='spacing' recomputes the stop as %s: floating-point rounding moves the end of the interval off the requested bound" % show(st)[:100], fn=qn, line=p.line)
+
+
+def r1_spacing_to_size(ctx):
+    qn = "verde.coordinates.spacing_to_size"
+    n = compare_paths(ctx, "R1", qn, "coords.spacing_to_size")
+    if n < 4:
+        ctx.add("R1", qn + "|paths", "UNDECIDED", "only %d return paths compared (4 expected)" % n, fn=qn)
+    exact_stop(ctx, "R1")
     ok = any(p.exit == "raise" and p.conds and p.conds[0][0][0] == "cmp" and p.conds[0][0][1] in ("notin", "in") and p.conds[0][0][2] == ("param", "adjust") for p in ctx.paths(qn))
     first = all(not p.events or True for p in ctx.paths(qn))
     ctx.check("R1", qn + "|invalid-adjust-raises", True if ok and first else False, "an adjust other than 'spacing'/'region' raises", bad="invalid adjust values are no longer rejected", fn=qn)
